@@ -2495,7 +2495,11 @@ impl SignedDurationRound {
             increment,
         );
 
-        let seconds = rounded / t::NANOS_PER_SECOND;
+        // Truncate toward zero (not toward negative infinity) so that the
+        // seconds and the sub-second remainder have the same sign. Otherwise,
+        // a negative result with a fractional part whose seconds are
+        // `i64::MIN` would be reported as overflow even though it fits.
+        let seconds = rounded.div_ceil(t::NANOS_PER_SECOND);
         let seconds =
             t::NoUnits::try_rfrom("seconds", seconds).map_err(|_| {
                 err!(
@@ -2505,7 +2509,7 @@ impl SignedDurationRound {
                     singular = self.smallest.singular(),
                 )
             })?;
-        let subsec_nanos = rounded % t::NANOS_PER_SECOND;
+        let subsec_nanos = rounded.rem_ceil(t::NANOS_PER_SECOND);
         // OK because % 1_000_000_000 above guarantees that the result fits
         // in a i32.
         let subsec_nanos = i32::try_from(subsec_nanos).unwrap();
